@@ -102,6 +102,15 @@ def v1_inputs(rng, tier, k=None):
                 pool.append(b"PROXY UNKNOWN " + filler + bytes([b]) + b"a\r\n")
                 pool.append(b"PROXY UNKNOWN " + filler + bytes([b, b]) + b"\r\nrest")
                 pool.append(b"PROXY TCP4 1.2.3.4 5.6.7.8 1 2" + b"\r\n" + filler + bytes([b]))
+    # lengths whose low 8 / low 16 bits are small again: a limit comparison done in a narrowed type
+    # (u8, u16) accepts them
+    for total in (255, 256, 257, 300, 363, 364, 512, 619, 620, 65535, 65536, 65537, 65600, 65643, 65644, 131072 + 50):
+        pool.append(b"PROXY UNKNOWN " + b"w" * (total - 16) + b"\r\n")
+        pool.append(b"PROXY TCP4 1.2.3.4 5.6.7.8 1 2" + b" " * (total - 32) + b"\r\n")
+        if total < 1000:
+            pool.append(b"q" * total)
+            pool.append(b"PROXY UNKNOWN " + b"w" * (total - 15) + b"\r")
+            pool.append(b"PROXY TCP6 ::1 ::2 3 " + b"4" * (total - 23) + b"\r\n")
     for total in (100, 105, 106, 107, 108, 109, 200):
         pool.append(b"x" * total)
         pool.append(b"PROXY UNKNOWN " + b"y" * (total - 14))
@@ -766,7 +775,9 @@ class C12(Prop):
                     ops.append("%s %s" % (e, C.hexs(m)))
                     self._meta.append(("v1", "suffix", l, m))
             if l.startswith(b"PROXY UNKNOWN"):
-                for total in (108, 109, 150):
+                # ... including totals whose low 8 / low 16 bits are at most 107 again (a limit compared
+                # in a narrowed type)
+                for total in (108, 109, 150, 255, 256, 257, 300, 363, 364, 512, 65536, 65600, 65643):
                     m = l[:-2] + b" " + b"z" * (total - len(l) - 1) + b"\r\n"
                     for e in ("v1b", "v1s", "auto"):
                         ops.append("%s %s" % (e, C.hexs(m)))
